@@ -1125,6 +1125,28 @@ func (w *wk) famSignNonce(n int) {
 		d := w.signerKey()
 		msg := w.message()
 		k := w.signerKey()
+		if i%3 == 0 {
+			// the secret key is solved for so that the raw s = k^-1 (m + r d) lands on a boundary of the low-S rule
+			// (n/2, just above it, inside (n/2, 2^255), around 2^255, n-1, 1): d = (s0 k - m) / r mod n
+			half := new(big.Int).Rsh(N, 1)
+			two255 := new(big.Int).Lsh(big.NewInt(1), 255)
+			targets := []*big.Int{half, add(half, big.NewInt(1)), add(half, big.NewInt(2)), add(half, big.NewInt(int64(3+w.rng.Intn(5000)))),
+				new(big.Int).Rsh(add(half, two255), 1), new(big.Int).Sub(two255, big.NewInt(1)), new(big.Int).Sub(two255, big.NewInt(2)), two255, add(two255, big.NewInt(1)),
+				new(big.Int).Sub(N, big.NewInt(1)), new(big.Int).Sub(N, big.NewInt(2)), big.NewInt(1), big.NewInt(2), new(big.Int).Sub(half, big.NewInt(1)),
+				add(half, new(big.Int).Rsh(new(big.Int).SetBytes(w.rng.Bytes(16)), 2))}
+			s0 := targets[w.rng.Intn(len(targets))]
+			rr := new(big.Int).Mod(refec.ScalarBaseMult(k).X, N)
+			if rr.Sign() != 0 {
+				dd := new(big.Int).Mul(s0, k)
+				dd.Sub(dd, new(big.Int).SetBytes(msg))
+				dd.Mul(dd, new(big.Int).ModInverse(rr, N))
+				dd.Mod(dd, N)
+				if dd.Sign() != 0 {
+					d = dd
+					w.run.Inc("sign_nonce_low_s_boundary_cases")
+				}
+			}
+		}
 		w.note("sign-nonce", hx(refec.Bytes32(d)), hx(msg), hx(refec.Bytes32(k)))
 		wit := map[string]interface{}{"mode": "explicit-nonce", "seckey": hx(refec.Bytes32(d)), "msg": hx(msg), "nonce": hx(refec.Bytes32(k))}
 		w.run.Inc("cases/sign-nonce")
@@ -1422,3 +1444,5 @@ func main() {
 	run.Finish("each case = one (key, signature, message) / (q, p, t, parity) byte input judged by btc.EcdsaVerify/SchnorrVerify/CheckPayToContract and by refec, or one (secret, message, aux) signed by the library and checked by refec (verify, low-S, canonical DER, RFC6979/BIP340 equality, recovery); distinct_nontrivial = distinct judged inputs",
 		"evaluations", "cases", run.N(20000, 1000000))
 }
+
+func add(a, b *big.Int) *big.Int { return new(big.Int).Add(a, b) }
